@@ -17,6 +17,7 @@ import (
 	"github.com/0xReLogic/Helios/internal/loadbalancer"
 	"github.com/0xReLogic/Helios/internal/logging"
 	vh "github.com/0xReLogic/Helios/internal/verifh"
+	"github.com/0xReLogic/Helios/internal/vhook"
 )
 
 var allStrategies = []string{"round_robin", "least_connections", "weighted_round_robin", "ip_hash", "ip_hash_consistent"}
@@ -197,3 +198,6 @@ func vsleep(d time.Duration) { time.Sleep(d) }
 
 // vhFar is a time far in the (virtual) future.
 func vhFar() time.Time { return time.Now().Add(10 * 365 * 24 * time.Hour) }
+
+// vhYield is a suspension point inside harness-provided callbacks.
+func vhYield(p string) { vhook.Yield(p) }
